@@ -54,6 +54,7 @@ import (
 	"encoding/json"
 	"errors"
 	"fmt"
+	"math/big"
 	"math/rand"
 	"os"
 	"os/exec"
@@ -108,7 +109,16 @@ func killApplet() {
 // index 5 is reserved (spokfileItem); index 6 is a file whose NAME is full of glob meta-characters but has no `*`: a
 // literal dependency, the file of exactly that name
 // index 7: a FILE called like task A; index 8: "b1" — with "b" a pair whose path‖content strings can coincide ("b"+"1v1" = "b1"+"v1")
-var files = []string{"a", "b", "src/x", "src/y", "src/a", "\x00reserved", "q[x]{y,z}?.t", "A", "b1"}
+// indices 9..27: nineteen files below `many` (more than there are CPUs on most machines, and a prime number of them)
+var files = func() []string {
+	l := []string{"a", "b", "src/x", "src/y", "src/a", "\x00reserved", "q[x]{y,z}?.t", "A", "b1"}
+	for i := 0; i < manyN; i++ {
+		l = append(l, fmt.Sprintf("many/%02d", i))
+	}
+	return l
+}()
+
+const manyN, manyBase = 19, 9
 
 type taskDef struct {
 	name       string
@@ -152,6 +162,9 @@ var templates = []template{
 	{[]taskDef{{"A", []string{"a"}, nil, false}, {"B", []string{"A", "b"}, []string{"A"}, true}}, []int{7, 1, 0}},
 	// 13: a glob over two files whose names and contents can be cut differently to the same text ("b"+"1v1", "b1"+"v1")
 	{[]taskDef{{"A", []string{"b*"}, nil, false}}, []int{1, 8}},
+	// 14: a glob over nineteen files: every one of them is an input, whichever worker it falls to (the last, the first
+	// and one in the middle are edited)
+	{[]taskDef{{"A", []string{"many/*"}, nil, false}}, []int{manyBase + manyN - 1, manyBase, manyBase + 7}},
 }
 
 // globalVars: every spokfile of this engine declares some global variables (none is used by a command): what they are
@@ -186,10 +199,12 @@ func (t template) binText() string {
 	for _, td := range t.tasks {
 		args := td.args()
 		n := td.name
-		cmd1 := `c=0; while read -r l; do case "$l" in *.2) c=$((c+1));; esac; done < $LOG; if test $((c+1)) = "$KILLAT"; then echo ` + n +
+		// (every task declares an output, a hidden file that its first command writes before anything else: an output that
+		// exists and is newer than every dependency says nothing about whether the task COMPLETED)
+		cmd1 := `echo x > $PROJ/.` + n + `.out; c=0; while read -r l; do case "$l" in *.2) c=$((c+1));; esac; done < $LOG; if test $((c+1)) = "$KILLAT"; then echo ` + n +
 			` > $CTL/killed; kill -$KILLSIG $$; fi; echo ` + n + ` >> $LOG`
 		cmd2 := `echo ` + n + `.2 >> $LOG; test ! -e $CTL/fail.` + n
-		fmt.Fprintf(&b, "task %s(%s) {\n    %s\n    %s\n}\n\n", n, strings.Join(args, ", "), cmd1, cmd2)
+		fmt.Fprintf(&b, "task %s(%s) -> \".%s.out\" {\n    %s\n    %s\n}\n\n", n, strings.Join(args, ", "), n, cmd1, cmd2)
 	}
 	return b.String()
 }
@@ -287,6 +302,10 @@ func refInputs(root string, td taskDef, spokfileOnDisk bool) inputs {
 		case "b*":
 			add(1)
 			add(8)
+		case "many/*":
+			for i := 0; i < manyN; i++ {
+				add(manyBase + i)
+			}
 		case "*":
 			add(0)
 			add(1)
@@ -339,12 +358,13 @@ func (in inputs) String() string {
 }
 
 // natDigest of lean/Spok/Run.lean
-func (in inputs) natDigest() uint64 {
-	var a uint64
+func (in inputs) natDigest() string {
+	a := new(big.Int)
 	for _, x := range in.items {
-		a = a*128 + uint64(x[0]*8+x[1]+1)
+		a.Mul(a, big.NewInt(256))
+		a.Add(a, big.NewInt(int64(x[0]*8+x[1]+1)))
 	}
-	return a
+	return a.String()
 }
 
 // ------------------------------------------------------------------------------------------------
@@ -673,7 +693,7 @@ func invokeBinary(sb *sandbox, sel, req []string, force bool, cs crashSpec, fail
 		argv = append(argv, "--force")
 	}
 	argv = append(argv, req...)
-	env := []string{"HOME=" + sb.root, "PATH=" + sb.bin, "NO_COLOR=1", "TERM=dumb", "LOG=" + sb.log, "CTL=" + sb.ctl,
+	env := []string{"HOME=" + sb.root, "PATH=" + sb.bin, "NO_COLOR=1", "TERM=dumb", "LOG=" + sb.log, "CTL=" + sb.ctl, "PROJ=" + sb.proj,
 		"KILLAT=" + strconv.Itoa(cs.killAt), "KILLSIG=9"}
 	if cs.term {
 		env[len(env)-1] = "KILLSIG=15"
@@ -909,6 +929,12 @@ func workCase(c string) string {
 	for _, f := range []int{0, 1, 2} {
 		_ = os.WriteFile(filepath.Join(proj, files[f]), []byte("v1"), 0o644)
 	}
+	if ti == 14 {
+		_ = os.MkdirAll(filepath.Join(proj, "many"), 0o755)
+		for i := 0; i < manyN; i++ {
+			_ = os.WriteFile(filepath.Join(proj, files[manyBase+i]), []byte("v1"), 0o644)
+		}
+	}
 	// `b` starts its life as a symbolic link to a regular file kept outside the project: a dependency is the file the path
 	// leads to (edits go through the link; a delete removes the link, a later write makes a plain file)
 	store := filepath.Join(root, "store-b")
@@ -920,7 +946,7 @@ func workCase(c string) string {
 	fail := map[string]bool{}
 	effects := map[string][2]string{} // task -> (file index, content code): what its command overwrites when it runs
 	rmcache := map[string]bool{}      // tasks whose command removes the .spok directory
-	digests := map[string]uint64{}    // real digest -> natDigest of the inputs it was computed from
+	digests := map[string]string{}    // real digest -> natDigest of the inputs it was computed from
 	var names []string
 	for _, td := range tpl.tasks {
 		names = append(names, td.name)
@@ -1189,7 +1215,7 @@ func workCase(c string) string {
 						cs = append(cs, n+"=-")
 					default:
 						if id, ok := digests[d]; ok {
-							cs = append(cs, fmt.Sprintf("%s=%d", n, id))
+							cs = append(cs, fmt.Sprintf("%s=%s", n, id))
 						} else {
 							cs = append(cs, n+"=?"+d[:min(8, len(d))])
 						}
@@ -1243,6 +1269,7 @@ var alpha = map[int]alphabet{
 	11: {[]string{"w.0.1", "w.0.2", "d.0", "w.2.2", "w.2.1"}, runsOf([]string{"A"})},
 	12: {[]string{"w.7.1", "w.7.2", "w.1.2", "w.0.2", "d.7"}, runsOf([]string{"B", "A"})},
 	13: {[]string{"w.1.4", "w.1.1", "d.1", "w.8.1", "d.8", "w.8.4"}, runsOf([]string{"A"})},
+	14: {[]string{"w.27.2", "w.27.1", "w.9.2", "w.16.2", "d.27", "w.16.1"}, runsOf([]string{"A"})},
 }
 
 // touchFamily: the modification time of a dependency moves and nothing else: every task is still up to date (also for
@@ -1615,6 +1642,9 @@ func gen(w *bufio.Writer, args map[string]string) {
 			exhaustive(w, 8, 5) // a glob that comes to match nothing under a forced run, then the same files again
 		}
 		crashFamily(w, 2, 1, 8, quickTears, 4)
+		// a forced run in a process that sees ONE cpu records what it ran on like any other
+		fmt.Fprintf(w, "T1b r.AB.1.-.c1 w.0.2 r.AB.0.-.c1 r.AB.0.-\n")
+		fmt.Fprintf(w, "T2b r.AB.0.- w.1.2 r.AB.1.-.c1 w.1.1 r.AB.0.-.c1\n")
 		// a forced run records what it ran on — also for files that are reached through a symbolic link to a directory
 		linkedSrcFamily(w, 3)
 		for _, t := range []int{7, 0, 3} {
@@ -1664,6 +1694,7 @@ func gen(w *bufio.Writer, args map[string]string) {
 			exhaustive(w, 11, 6)
 			exhaustive(w, 12, 5)
 			exhaustive(w, 13, 6)
+			exhaustive(w, 14, 5)
 			touchFamily(w, true)
 			linkedSrcFamily(w, 4)
 			removalFamily(w, 2, 5)
@@ -1684,6 +1715,7 @@ func gen(w *bufio.Writer, args map[string]string) {
 			exhaustive(w, 11, 5)
 			exhaustive(w, 12, 4)
 			exhaustive(w, 13, 5)
+			exhaustive(w, 14, 4)
 			touchFamily(w, prop == "C02")
 			linkedSrcFamily(w, 3)
 			removalFamily(w, 2, 4)
